@@ -30,7 +30,7 @@ CLAIMED = {
              "index arithmetic of C06, which is not decided."),
     "C01": dict(
         cat="other", ref="DESIGN.md §5 C01",
-        technique="static analysis: reader-vs-writer wire-schema comparison per version region (summary composition + version partial evaluation), CRTP wiring census, count/array coherence dataflow, registry census, kind/width agreement of the hand-written Read/Write pairs per constant width argument",
+        technique="static analysis: reader-vs-writer wire-schema comparison per version region; shared enumerator-completeness rules of C05; (summary composition + version partial evaluation), CRTP wiring census, count/array coherence dataflow, registry census, kind/width agreement of the hand-written Read/Write pairs per constant width argument",
         text="Decides read/write symmetry of the code, the structural necessary condition of an exact round trip: for every registered "
              "class, the header and the hand-written pairs, in every version region, the ordered member fields (path, width, loops, "
              "data gates) transferred by Get equal those transferred by Put; mode-specific sections must be in a triaged table; each "
